@@ -308,8 +308,9 @@ def shapes_c20(tier):
                + content components (eclass, licenses, dtd, glsa, news, xmlschema, topfiles) each absent once
        thorough: all 64 package subsets, layouts up to 4x4 (alike) and corners."""
     base = C20_BASE
-    full = C20_BASE + C20_OPT
-    out = []
+    # nd2 puts step (3) of C20 outside the statement, so it only varies in the 'opt' family (and one 'all' shape)
+    full = C20_BASE + tuple(x for x in C20_OPT if x != 'nd2')
+    out = [('all', shape([[PKG, PKG_FULL], [PKG_FULL]], C20_BASE + C20_OPT))]
     if tier == 'quick':
         subs = [s for s in powerset(PKG) if 'e2' not in s]         # 32 subsets (e2 behaves like e1)
         for (nc, npk), repo in itertools.product([(1, 1), (2, 2)], [base, full]):
